@@ -1,5 +1,5 @@
 (* C11 — IP-restricted automation certificates work only from their netblocks. *)
-From KM Require Import Base.Bytes Model.IPExt Proofs.IPExt.
+From KM Require Import Base.Bytes Model.IPExt Model.IPExtConn Proofs.IPExt Proofs.IPExtConn.
 
 (* the netblocks read back from a minted extension are the ones it was minted with:
    every prefix length 0..32, every (masked) address *)
@@ -137,3 +137,60 @@ Print Assumptions c11_mint_parse_readback.
 Example c11_canon_example :
   canon (mk 10 1 7 255 22) = mk 10 1 4 0 22 /\ cidr_ok (mk 10 1 7 255 22) = true /\ wf_block (mk 10 1 7 255 22) = false.
 Proof. vm_compute. repeat split; reflexivity. Qed.
+
+(* The connection a request arrives on.  [conn] is r.TLS as the handler sees it: does it carry a chain
+   the TLS layer verified, and was the handshake a RESUMPTION of an earlier session (DidResume); [h] is
+   everything the same server answered before (any requests: from inside, from outside, resumed or not,
+   with this certificate or others).  For EVERY value of the flag and EVERY history the certificate
+   authenticates iff the connection carries a verified chain and the TCP peer of THIS connection lies in
+   one of its netblocks: there is no verdict that outlives the request it was computed for. *)
+Theorem c11_iff_conn : forall h conn cn blocks p,
+  forallb wf_block blocks = true ->
+  (auth_ip h conn (minted cn blocks) p = true <->
+   cs_verified conn = true /\ exists b, In b blocks /\ contains b p = true).
+Proof. exact iff_conn. Qed.
+Print Assumptions c11_iff_conn.
+
+(* the same for everything the minting endpoint can mint from CIDR texts *)
+Theorem c11_iff_conn_mint : forall h conn cn req p,
+  forallb cidr_ok req = true ->
+  (auth_ip h conn (mint_request cn req) p = true <->
+   cs_verified conn = true /\ exists b, In b req /\ contains b p = true).
+Proof. exact iff_conn_mint. Qed.
+Print Assumptions c11_iff_conn_mint.
+
+(* two requests with the same certificate from the same peer get the same verdict whatever their
+   resumption flags and whatever each server has seen before *)
+Theorem c11_resumed_history_independent : forall h h' conn conn' c p,
+  cs_verified conn = cs_verified conn' -> auth_ip h conn c p = auth_ip h' conn' c p.
+Proof. exact auth_ip_independent. Qed.
+Print Assumptions c11_resumed_history_independent.
+
+(* over a whole sequence of requests on one server (each seeing all earlier ones): a request that is let in
+   presenting a minted certificate comes from inside that certificate's blocks on a verified connection *)
+Theorem c11_sequence_sound : forall rs h r cn blocks,
+  forallb wf_block blocks = true ->
+  In (r, true) (combine rs (run h rs)) -> rq_cert r = minted cn blocks ->
+  cs_verified (rq_conn r) = true /\ exists b, In b blocks /\ contains b (rq_peer r) = true.
+Proof. exact run_sound. Qed.
+Print Assumptions c11_sequence_sound.
+
+Theorem c11_sequence_history_independent : forall rs h h', run h rs = run h' rs.
+Proof. exact run_history_independent. Qed.
+Print Assumptions c11_sequence_history_independent.
+
+(* sharpness: a server that remembers "this certificate was found good" and consults that on resumed
+   sessions is not this function - after one use from inside (full handshake) the certificate is let in
+   from outside on a resumed session; without the earlier use it is not *)
+Theorem c11_resume_cache_refuted :
+  exists cn blocks inside outside full resumed,
+    forallb wf_block blocks = true /\
+    verify_ip (ext_of blocks) outside = false /\
+    did_resume full = false /\ did_resume resumed = true /\
+    let first := {| rq_conn := full; rq_peer := inside; rq_cert := minted cn blocks |} in
+    auth_ip_cached [] full (minted cn blocks) inside = true /\
+    auth_ip_cached [first] resumed (minted cn blocks) outside = true /\
+    auth_ip [first] resumed (minted cn blocks) outside = false /\
+    auth_ip_cached [] resumed (minted cn blocks) outside = false.
+Proof. exact resume_cache_refuted. Qed.
+Print Assumptions c11_resume_cache_refuted.
